@@ -154,7 +154,8 @@ def monitors (m : Machine) (inp : Input) (g : Got) : List String :=
   -- (2) threads given on the command line is the number of workers
   let m2 := if count "pika:threads" == 1 && ok then
       let v := ((longs.find? (fun p => p.1 == "pika:threads")).map (·.2)).getD ""
-      if allDigits v && digitsVal v.toList ≤ m.pus && digitsVal v.toList ≥ 1 && g.workers != digitsVal v.toList then
+      if allDigits v && digitsVal v.toList ≤ m.pus && digitsVal v.toList ≥ 1 && (iniFor "pika.force_min_os_threads").isEmpty
+          && g.workers != digitsVal v.toList then
         [s!"command line --pika:threads={v} but the runtime has {g.workers} workers"] else []
     else []
   -- (3) ini over environment over default, for rows without command-line option or when it is absent
